@@ -819,7 +819,13 @@ async fn flood_family(cli: &Cli, report: &mut Report, late: &LateLog) {
 /// needs 12 s; the cooperating client was in flight when shutdown was requested and must still get
 /// its Transfer, and listen() must not return before that.
 async fn long_drain() -> (Option<bool>, Option<f64>, Option<f64>, Option<String>) {
-    let direct = start_direct(DirectSpec { timeout: Duration::from_secs(14), discovery_latency: Duration::from_secs(12), ..Default::default() }).await;
+    drain_of(Duration::from_secs(14), Duration::from_secs(12)).await
+}
+
+/// `timeout`: the configured connection timeout (also "never": the largest number of seconds there
+/// is); `backend`: how long the discovery of the in-flight login takes.
+async fn drain_of(timeout: Duration, backend: Duration) -> (Option<bool>, Option<f64>, Option<f64>, Option<String>) {
+    let direct = start_direct(DirectSpec { timeout, discovery_latency: backend, ..Default::default() }).await;
     let Ok(end) = TcpEnd::connect(direct.addr, None).await else { return (None, None, None, Some("connect failed".into())) };
     let claimed = Ident { name: "Patient".into(), uuid: 4242 };
     let plan = scripts::plan(scripts::login_script(2, "drain.example.org", 25565, &claimed, "en_us"), false, [5u8; 16], Duration::from_secs(20));
@@ -836,7 +842,7 @@ async fn long_drain() -> (Option<bool>, Option<f64>, Option<f64>, Option<String>
     let cancelled = canceller.await.unwrap_or_else(|_| Instant::now());
     let transfer_at = log.first("Transfer").map(|r| (started + Duration::from_nanos(r.t_ns)).duration_since(cancelled).as_secs_f64());
     let in_flight = log.first("EncryptionRequest").map(|r| started + Duration::from_nanos(r.t_ns) < cancelled);
-    let returned = direct.wait_returned(Duration::from_secs(14) + RETURN_SLACK).await.map(|t| t.saturating_duration_since(cancelled).as_secs_f64());
+    let returned = direct.wait_returned(timeout.min(backend + Duration::from_secs(2)) + RETURN_SLACK).await.map(|t| t.saturating_duration_since(cancelled).as_secs_f64());
     end.kill();
     let _ = addr;
     (in_flight.map(|f| f && transfer_at.is_some()), transfer_at, returned, if in_flight == Some(true) { None } else { Some("the client was not in flight when shutdown was requested".into()) })
@@ -1084,6 +1090,26 @@ pub async fn run_prop(cli: &Cli) -> i32 {
         flood_family(cli, &mut report, &late).await;
         sigint_family(cli, &mut report).await;
         right_after_cancel_family(cli, &mut report).await;
+        // a listener whose connection timeout is "never" (u64::MAX seconds) drains like any other
+        {
+            let (ok, transfer_at, returned, problem) = drain_of(Duration::from_secs(u64::MAX), Duration::from_millis(2500)).await;
+            let detail = json!({"transfer_received_s_after_cancel": transfer_at, "listen_returned_s_after_cancel": returned, "timeout_s": u64::MAX, "backend_s": 2.5});
+            if let Some(p) = problem {
+                report.inconclusive(&format!("drain with timeout never: {p}"));
+            } else {
+                report.eval(Some("drain/timeout-never/backend-2.5s"));
+                report.count("drains of a listener whose connection timeout is the largest number of seconds", 1);
+                report.sample(json!({"case": "drain with timeout never", "observed": detail}));
+                if ok != Some(true) {
+                    report.violation("b-inflight-client-lost-transfer/timeout-never", "a cooperating client that was in flight did not receive its Transfer after the shutdown request (connection timeout: never)", detail.clone());
+                }
+                match (transfer_at, returned) {
+                    (Some(t), Some(r)) if r + 0.05 < t => report.violation("c-listen-returned-before-inflight-finished/timeout-never", "listen() returned before the in-flight client had received its Transfer", detail.clone()),
+                    (_, None) => report.violation("d-listen-not-returned-within-timeout+5s/timeout-never", "listen() did not return within 5 s after the last in-flight connection had finished (connection timeout: never)", detail.clone()),
+                    _ => {}
+                }
+            }
+        }
         // a connection task that dies during the drain
         let (ok, transfer_at, returned, problem) = panicking_sibling().await;
         let detail = json!({"transfer_received_s_after_cancel": transfer_at, "listen_returned_s_after_cancel": returned, "timeout_s": 10, "backend_s": 2.5, "sibling_panics_s_after_cancel": 0.5});
